@@ -599,7 +599,7 @@ func (c *Cluster) heartbeat(b *Broker, r *Req) rc.Msg {
 			}
 		}
 	}
-	g.Heartbeats = append(g.Heartbeats, HB{Step: c.S.Step, At: c.S.Now(), Member: mid, Generation: body.I32("generation_id"), Code: code})
+	g.Heartbeats = append(g.Heartbeats, HB{Step: r.Step, At: r.At, Member: mid, Generation: body.I32("generation_id"), Code: code})
 	return rc.Msg{"throttle_time_ms": int32(0), "error_code": code}
 }
 
